@@ -394,3 +394,29 @@ Definition step (s : state) (o : op) : state :=
   end.
 
 Definition run (c : config) (ops : list op) : state := fold_left step ops (init c).
+
+(** ** The stamp of a record (qlog.go Add since 3418b11)
+
+    [newLogEntry] builds the entry outside every lock and stamps it there;
+    since 3418b11 [Add] overwrites that stamp with a clock reading taken AFTER
+    [bufferLock.Lock()], right before the push: the i-th pushed entry carries
+    the i-th reading of the clock, whatever stamp its caller brought along.
+    [run c ops] with the callers' stamps is the code as it was before (push
+    order and stamp order independent of each other). *)
+Definition set_time (e : entry) (t : Z) : entry :=
+  {| e_id := e_id e; e_time := t; e_len := e_len e; e_host := e_host e; e_ip := e_ip e; e_cid := e_cid e;
+     e_reason := e_reason e; e_filtered := e_filtered e |}.
+
+Fixpoint stamp_ops (clock : list Z) (ops : list op) : list op :=
+  match ops with
+  | [] => []
+  | OAdd e :: r =>
+      match clock with t :: cl => OAdd (set_time e t) :: stamp_ops cl r | [] => OAdd e :: stamp_ops [] r end
+  | OAddAsync e :: r =>
+      match clock with t :: cl => OAddAsync (set_time e t) :: stamp_ops cl r | [] => OAddAsync e :: stamp_ops [] r end
+  | o :: r => o :: stamp_ops clock r
+  end.
+
+(** A history of the code as it is: [clock] = the readings taken under the
+    buffer lock, in push order. *)
+Definition run_locked (c : config) (clock : list Z) (ops : list op) : state := run c (stamp_ops clock ops).
